@@ -87,7 +87,8 @@ theorem flagCells_slice (s : AssetSpec) (b : BinArchive) (p : Nat)
     exact ⟨by omega, by rw [hlen]; exact h2⟩
 
 /-- Reading the first byte and the `flag_count` further bytes yields the flag vector. -/
-theorem read_flags (s : AssetSpec) (b : BinArchive) (p : Nat) (hc : cellsAt b p (flagCells s)) :
+theorem read_flags (s : AssetSpec) (b : BinArchive) (hsmall : b.size < 2 ^ 64) (p : Nat)
+    (hc : cellsAt b p (flagCells s)) :
     ∃ raw more, Reader.readU8 b ⟨p⟩ = .ok (raw, ⟨p + 1⟩)
       ∧ Reader.readBytes b ⟨p + 1⟩ (if raw &&& 1 = 1 then 7 else 3)
           = .ok (more, ⟨p + (finalFlags s).length⟩)
@@ -120,7 +121,7 @@ theorem read_flags (s : AssetSpec) (b : BinArchive) (p : Nat) (hc : cellsAt b p 
     · rw [if_neg (fun e => hl (hmark.1 e))]; simp [hl] at hlen; omega
   refine ⟨f0, slice b.data (p + 1) ft.length, ?_, ?_, ?_, ?_⟩
   · rw [readU8_at (by unfold size; exact hp), hraw]
-  · rw [hcount, readBytes_slice b _ _ (by omega), hf]
+  · rw [hcount, readBytes_slice b hsmall _ _ (by omega), hf]
     simp only [List.length_cons, Res.ok.injEq, Prod.mk.injEq, true_and]
     congr 1; omega
   · rw [hf, hs.2]
@@ -220,7 +221,7 @@ theorem readStrs_layout (s : AssetSpec) (b : BinArchive) :
 def normVal (v : Bool × Bytes) : Bool × Bytes := if v.1 then v else (false, zero4)
 
 theorem readVal_layout (s : AssetSpec) (hwf : SpecWF s) (b : BinArchive) (he : b.endian = .little)
-    (i p : Nat) (h1 : 34 ≤ i) (h2 : i ≤ 51) (hc : cellsAt b p (fieldCell s i)) :
+    (hsmall : b.size < 2 ^ 64) (i p : Nat) (h1 : 34 ≤ i) (h2 : i ≤ 51) (hc : cellsAt b p (fieldCell s i)) :
     readVal b (finalFlags s) i ⟨p⟩
       = .ok (normVal (valField s i), ⟨p + 4 * (fieldCell s i).length⟩) := by
   have hbit := flagBit_final s i (by omega) h2
@@ -247,7 +248,7 @@ theorem readVal_layout (s : AssetSpec) (hwf : SpecWF s) (b : BinArchive) (he : b
       rw [fieldCell_color s i hkk hu] at hc ⊢
       obtain ⟨⟨hfit, hsl, _⟩, _⟩ := hc
       unfold readColor
-      rw [readBytes_slice b 4 p hfit, hsl]
+      rw [readBytes_slice b hsmall 4 p hfit, hsl]
       simp only [swap02_swap02, hnv, List.length_cons, List.length_nil]
     | f32 =>
       rw [fieldCell_word s i (Or.inl hkk) hu] at hc ⊢
@@ -262,7 +263,8 @@ theorem readVal_layout (s : AssetSpec) (hwf : SpecWF s) (b : BinArchive) (he : b
       rw [leBytes_ofLe4 _ (length_leBytes 4 _), leBytes_ofLe4 _ hlen]
       exact ⟨trivial, rfl⟩
 
-theorem readVals_layout (s : AssetSpec) (hwf : SpecWF s) (b : BinArchive) (he : b.endian = .little) :
+theorem readVals_layout (s : AssetSpec) (hwf : SpecWF s) (b : BinArchive) (he : b.endian = .little)
+    (hsmall : b.size < 2 ^ 64) :
     ∀ (is : List Nat) (p : Nat), (∀ i ∈ is, 34 ≤ i ∧ i ≤ 51) →
       cellsAt b p (fieldsCells s is) →
       readVals b (finalFlags s) is ⟨p⟩
@@ -278,7 +280,7 @@ theorem readVals_layout (s : AssetSpec) (hwf : SpecWF s) (b : BinArchive) (he : 
     rw [hcons] at hc ⊢
     rw [cellsAt_append] at hc
     unfold readVals
-    rw [readVal_layout s hwf b he i p h1 h2 hc.1]
+    rw [readVal_layout s hwf b he hsmall i p h1 h2 hc.1]
     simp only
     rw [ih (p + 4 * (fieldCell s i).length) (fun j hj => hi j (by simp [hj])) hc.2]
     simp only [List.map_cons, List.length_append, Res.ok.injEq, Prod.mk.injEq, true_and]
